@@ -1,8 +1,10 @@
 (* C24 — Timestamp scaling is exact.
    The sites are the definitions translated from /repo on this run (gen/C24_Sites.v). *)
-From Coq Require Import ZArith List.
+From Coq Require Import ZArith List Bool.
 Require Import MTX.Lib.IntWrap MTX.Model.C24_MulDiv MTX.Proofs.C24_MulDiv MTX.Proofs.C24_Sites MTXGen.C24_Sites.
+Require Import MTX.Model.C24_Inline MTX.Proofs.C24_Inline MTXGen.C24_Inline.
 Import ListNotations.
+Local Open Scope bool_scope.
 Local Open Scope Z_scope.
 
 (* the shared shape: exact product-then-quotient truncated toward zero for every int64 v, whenever the exact
@@ -38,6 +40,77 @@ Theorem C24_general_refuted : exists v m d,
   muldiv_w v m d <> Z.quot (v * m) d.
 Proof. exact muldiv_general_refuted. Qed.
 Print Assumptions C24_general_refuted.
+
+(* ---- inline scaling expressions  a * b / c  that are not one of the named helpers (gen/C24_Inline.v) ---- *)
+
+(* every inline site found in /repo/internal on this run: for ALL operands in the site's ranges (range of the Go type of
+   the operand, value of a constant, or a library range fact re-validated by the driver) and a non-zero divisor, if the
+   exact result is representable in the type of the expression then the expression, with every conversion and both
+   operations wrapping at their Go width, equals the exact product-then-quotient truncated toward zero *)
+Theorem C24_inline_sites_exact : Forall inline_exact sites_inline.
+Proof. exact sites_inline_exact. Qed.
+Print Assumptions C24_inline_sites_exact.
+
+Theorem C24_inline_sites_counted : Z.of_nat (length sites_inline) = inline_site_count.
+Proof. exact sites_inline_counted. Qed.
+Print Assumptions C24_inline_sites_counted.
+
+(* the sites that rely on a range fact do need it: with the ranges of the Go types alone the plain a * b / c form
+   overflows although the exact result is representable (not reachable on the real code: the producers are bounded) *)
+Theorem C24_inline_typeonly_refuted : Forall inline_overflows sites_inline_typeonly.
+Proof. exact sites_inline_typeonly_overflow. Qed.
+Print Assumptions C24_inline_typeonly_refuted.
+
+Theorem C24_inline_overflows_not_exact : forall s, inline_overflows s -> ~ inline_exact s.
+Proof. exact overflows_not_exact. Qed.
+Print Assumptions C24_inline_overflows_not_exact.
+
+(* the plain form at each width: exact iff the intermediate product is representable ... *)
+Theorem C24_inline_int64_exact : forall a b c,
+  in_int64 (a * b) -> in_int64 (Z.quot (a * b) c) -> inl_w wrap64 a b c = Z.quot (a * b) c.
+Proof. exact inl_w64_exact. Qed.
+Print Assumptions C24_inline_int64_exact.
+
+Theorem C24_inline_uint64_exact : forall a b c,
+  0 <= a * b < two64 -> 0 <= Z.quot (a * b) c < two64 -> inl_w wrapu64 a b c = Z.quot (a * b) c.
+Proof. exact inl_wu64_exact. Qed.
+Print Assumptions C24_inline_uint64_exact.
+
+Theorem C24_inline_uint32_exact : forall a b c,
+  0 <= a * b < two32 -> 0 <= Z.quot (a * b) c < two32 -> inl_w wrapu32 a b c = Z.quot (a * b) c.
+Proof. exact inl_wu32_exact. Qed.
+Print Assumptions C24_inline_uint32_exact.
+
+(* ... and not on the whole range of the type (why new inline sites need operand ranges, or the helper) *)
+Theorem C24_inline_int64_type_range_refuted : exists a b c,
+  in_int64 a /\ in_int64 b /\ in_int64 c /\ c <> 0 /\ in_int64 (Z.quot (a * b) c) /\ inl_w wrap64 a b c <> Z.quot (a * b) c.
+Proof. exact inl_w64_type_range_refuted. Qed.
+Print Assumptions C24_inline_int64_type_range_refuted.
+
+Theorem C24_inline_uint64_type_range_refuted : exists a b c,
+  0 <= a < two64 /\ 0 <= b < two64 /\ 0 < c < two64 /\ 0 <= Z.quot (a * b) c < two64 /\ inl_w wrapu64 a b c <> Z.quot (a * b) c.
+Proof. exact inl_wu64_type_range_refuted. Qed.
+Print Assumptions C24_inline_uint64_type_range_refuted.
+
+Theorem C24_inline_uint32_type_range_refuted : exists a b c,
+  0 <= a < two32 /\ 0 <= b < two32 /\ 0 < c < two32 /\ 0 <= Z.quot (a * b) c < two32 /\ inl_w wrapu32 a b c <> Z.quot (a * b) c.
+Proof. exact inl_wu32_type_range_refuted. Qed.
+Print Assumptions C24_inline_uint32_type_range_refuted.
+
+Theorem C24_inline_int64_rate_refuted : exists a c,
+  in_int64 a /\ 1 <= c <= two32 /\ in_int64 (Z.quot (a * 90000) c) /\ inl_w wrap64 a 90000 c <> Z.quot (a * 90000) c.
+Proof. exact inl_w64_rate_refuted. Qed.
+Print Assumptions C24_inline_int64_rate_refuted.
+
+(* non-vacuity: the hypotheses of inline_exact are satisfiable at the extreme operands of a uint32 * 10^9 / uint32 site
+   (the largest product, 4294967295 * 10^9 < 2^63, is still representable) *)
+Example C24_inline_example :
+  let s := mk_inline_site (fun a _ c => wrap64 (Z.quot (wrap64 (wrap64 a * 1000000000)) (wrap64 c)))
+             (0, 4294967295) (1000000000, 1000000000) (0, 4294967295) rng_int64 in
+  in_rngb 4294967295 (is_ra s) && in_rngb 1 (is_rc s) && in_rngb (Z.quot (4294967295 * 1000000000) 1) (is_res s)
+  && (is_f s 4294967295 1000000000 1 =? 4294967295000000000) && (is_f s 4294967295 1000000000 4294967295 =? 1000000000)
+  && (is_f s 90000 1000000000 90000 =? 1000000000) = true.
+Proof. vm_compute. reflexivity. Qed.
 
 Example C24_example : muldiv_w 9223372036854775807 90000 nanos = 830103483316929
   /\ muldiv_w (-9223372036854775807) 90000 nanos = -830103483316929
